@@ -37,15 +37,29 @@ def syncPinned (acl : Acl) : List RawHead → List Entry → SyncOutcome
     else if !h.entry.hashOk || !h.hasHash then .err
     else syncPinned acl hs (h.entry :: acc)
 
-/-- the repaired `Sync`: null and incomplete heads, and heads the access controller refuses, are
-skipped and not handed to the replicator -/
-def syncHeads (acl : Acl) : List RawHead → List Entry → SyncOutcome
+/-- `Sync` on heads that all carry this store's log id: null and incomplete heads, and heads the access
+controller refuses, are skipped and not handed to the replicator -/
+def syncHeads0 (acl : Acl) : List RawHead → List Entry → SyncOutcome
   | [], acc => .load acc.reverse
   | h :: hs, acc =>
-    if !h.complete then syncHeads acl hs acc
-    else if !acl.canAppend h.entry then syncHeads acl hs acc
+    if !h.complete then syncHeads0 acl hs acc
+    else if !acl.canAppend h.entry then syncHeads0 acl hs acc
     else if !h.entry.hashOk then .err
-    else syncHeads acl hs (h.entry :: acc)
+    else syncHeads0 acl hs (h.entry :: acc)
+
+/-- a complete head written for another log is skipped before anything else is looked at -/
+def ownLog (id : Nat) (h : RawHead) : Bool := !h.complete || h.entry.logId == id
+
+/-- the repaired `Sync` of the store whose log has id `id`: as `syncHeads0`, after the heads written
+for another log have been skipped (skipping a head leaves the list built so far as it is, so it is
+the same as not having received it) -/
+def syncHeads (acl : Acl) (id : Nat) (hs : List RawHead) (acc : List Entry) : SyncOutcome :=
+  syncHeads0 acl (hs.filter (ownLog id)) acc
+
+/-- `Sync` before the repair of finding F21: a head written for another log (by a permitted writer)
+was handed to the replicator, which counted it in the replication status before dropping it -/
+def syncHeadsLoadsForeign (acl : Acl) (hs : List RawHead) (acc : List Entry) : SyncOutcome :=
+  syncHeads0 acl hs acc
 
 /-- `Sync` before the last repair (finding F18): a head the access controller refuses was "discarded"
 but had already been put on the list handed to the replicator, which then fetched it -/
@@ -63,10 +77,11 @@ inductive Decoded where
   | heads (hs : List RawHead)
 
 /-- one iteration of the topic listener / direct-channel monitor: never propagates an error -/
-def handleMessage (acl : Acl) : Decoded → SyncOutcome
+def handleMessage (acl : Acl) (m : Decoded) (id : Nat := 1) : SyncOutcome :=
+  match m with
   | .undecodable => .load []
   | .heads [] => .load []
-  | .heads hs => syncHeads acl hs []
+  | .heads hs => syncHeads acl id hs []
 
 /-- the listener loop itself: it handles the messages one after the other; `stopOnError` = the loop
 leaves when handling a message reports an error (it does not, in the Go text of this run: tied by
